@@ -29,8 +29,12 @@ structure Chunk where
   target : Nat
 deriving Repr, DecidableEq, Inhabited
 
-/-- `dict(sorted(runs.items(), key=start))` — Python's sort is stable, so is `mergeSort`. -/
-def sortRuns (rs : Runs) : Runs := rs.mergeSort (fun a b => decide (a.start ≤ b.start))
+/-- order of the `subruns` / `superrun` setters: by `(start, end)` lexicographically (since the D31 fix;
+before it the key was `start` alone) -/
+def runLe (a b : Run) : Bool := decide (a.start < b.start ∨ (a.start = b.start ∧ a.stop ≤ b.stop))
+
+/-- `dict(sorted(runs.items(), key=(start, end)))` — Python's sort is stable, so is `mergeSort`. -/
+def sortRuns (rs : Runs) : Runs := rs.mergeSort runLe
 
 /-- `_sorted_subruns_check`: consecutive entries must not overlap. -/
 def runsOverlap : Runs → Bool
